@@ -282,7 +282,8 @@ def run(chk):
         "(sibling agreement), construction of the flag vector at the call sites, and a structural involution argument "
         "(result = operand with data replaced; negated slices computed by a memoised pure function of structure only — purity is "
         "C16-K1; negate_blocks = copy and multiply those slices by -1). Contraction-order independence and the CAR of fkron are "
-        "value-level and not decided.")
+        "value-level and not decided."
+        " The jump moves of the ncon/einsum swap resolver are checked on the CFG of the nested function (parity command on every path, toggles over all other legs, collection after every jump, resolved swaps discarded first) and the command kinds emitted are matched with the executor's handlers.")
     chk.trusted_base = ["python ast parser", "C16-K1 (purity of _meta_swap_gate*)"]
     chk.rule("W1", "bosonic statistics: swap_gate returns its operand, sign functions return 1, before anything else", floor=3)
     chk.rule("W2", "parity products are restricted to fermionic components before summation and reduced mod 2 before use", floor=8)
